@@ -49,6 +49,12 @@ T = {
  "C13": ("fault injection (zeroed sensor rows) + twin-history checker (faulted vs fault-free run of the real filter), batch and streamed",
          "Fault enumeration by runtime monitoring: for 16 recursive filter configurations every (sensor subset, start, length<=3) dropout inside a 12-sample window is enumerated exhaustively (2904 faults) and long/repeated bursts are sampled; each faulted history is run through the constructor and, sample by sample, through update() with refused samples skipped; the run must refuse with ValueError or emit only finite unit quaternions, keep its carried state (P, bias, gains) finite, and K samples after the fault be back within tolerance of its fault-free twin (K from C05's bound when the first sample is lost).",
          "NumPy; slowly rotating consistent trajectories with gyro bias/noise; recovery bounds calibrated on the pinned tree; Fourati's recovery time is unbounded by design (not judged); UKF instability is a known finding", "5/C13", "fault_enumeration"),
+ "C14": ("reference-model monitor: independent degree-12 Schmidt spherical-harmonic synthesis of the shipped .COF files",
+         "Runtime monitoring: (latitude, longitude, height, date) points stratified over the equator, both poles and their neighbourhood, +-55 deg, longitudes 0/+-180, heights -1..850 km and the 0.1-year grid 2015.0-2030.0 with both sides of each epoch boundary are evaluated on a long-lived object, a fresh object and through the constructor, and compared (1e-6 nT) with a synthesis that shares only the coefficient files with the library (Legendre derivatives via numpy.polynomial, analytic d/dphi', P/cos cancelled at the poles), which also decides which file must be used.",
+         "NumPy; vt/ref/wmm.py (validated against an 80-bit evaluation: 2e-11 nT); 5e-3 nT strictly between 89 deg and a pole", "5/C14"),
+ "C15": ("query-history checker against a pure-function sequential specification + element-consistency monitors",
+         "Runtime monitoring: random sequences of 3-12 queries on one WMM object (constructor, explicit dates on and off the 0.1-year grid in all three epochs, date=None, both frames, special places) are compared answer by answer with the pure function f(date, place, frame) computed by the independent synthesis; constructor vs method for the same float / datetime.date; H, F, I, D, GV recomputed from the reported X, Y, Z; +180 vs -180; poles; equator and prime meridian through both entry points.",
+         "NumPy; vt/ref/wmm.py; date=None means the date the object already holds", "5/C15"),
 }
 
 def main():
